@@ -80,17 +80,17 @@ SPEC = dict(
             dict(name="place-le2leaves-k2", driver=D, args=["--space", "place", "--maxleaves", 2, "--k", 2, "--cfgmask", "0x81"]),
         ],
         thorough=[
-            # deadlines are safety caps (sum ~ 23 min); on an idle box every run completes well inside its cap
-            _cm("cm-le2leaves-allnames-8tok-k3", "--maxleaves", 2, "--k", 3, "--alpha", 8, "--naming", "all", "--deadline", 180),
-            _cm("cm-le2leaves-8tok-k4", "--maxleaves", 2, "--k", 4, "--alpha", 8, "--deadline", 240),
-            _cm("cm-le2leaves-elem-k5", "--specials", 0, "--maxleaves", 2, "--k", 5, "--alpha", 4, "--deadline", 100),
+            # deadlines are safety caps (sum ~ 23 min); measured CPU cost of the whole tier ~ 6 000 core-seconds under heavy load
+            _cm("cm-le2leaves-allnames-8tok-k3", "--maxleaves", 2, "--k", 3, "--alpha", 8, "--naming", "all", "--deadline", 130),
+            _cm("cm-le2leaves-8tok-k4", "--maxleaves", 2, "--k", 4, "--alpha", 8, "--cfgmask", "0x99", "--deadline", 220),
+            _cm("cm-le2leaves-elem-k5", "--specials", 0, "--maxleaves", 2, "--k", 5, "--alpha", 4, "--deadline", 130),
             _cm("cm-3leaves-elem-k4", "--specials", 0, "--minleaves", 3, "--maxleaves", 3, "--wrap", 0, "--k", 4, "--alpha", 4, "--cfgmask", "0x99",
-                "--deadline", 260),
+                "--deadline", 280),
             _cm("cm-4leaves-abc-k4", "--specials", 0, "--minleaves", 4, "--maxleaves", 4, "--wrap", 0, "--maxsufs", 2, "--k", 4, "--alpha", 3,
-                "--cfgmask", "0x21", "--cfgrotate", 1, "--deadline", 200),
-            dict(name="cmx-k3", driver=D, args=["--space", "cmx", "--k", 3, "--deadline", 70]),
-            dict(name="attr-all-defaults", driver=D, args=["--space", "attr", "--defaults", "all", "--deadline", 120]),
-            dict(name="idref-3elems-big", driver=D, args=["--space", "idref", "--elems", 3, "--big", 1, "--placerotate", 1, "--onoff", 0, "--deadline", 120]),
+                "--cfgmask", "0x21", "--cfgrotate", 1, "--deadline", 180),
+            dict(name="cmx-k3", driver=D, args=["--space", "cmx", "--k", 3, "--deadline", 100]),
+            dict(name="attr-all-defaults", driver=D, args=["--space", "attr", "--defaults", "all", "--deadline", 110]),
+            dict(name="idref-3elems-big", driver=D, args=["--space", "idref", "--elems", 3, "--big", 1, "--placerotate", 1, "--onoff", 0, "--deadline", 130]),
             dict(name="idref-3elems", driver=D, args=["--space", "idref", "--elems", 3, "--deadline", 60]),
             dict(name="vc", driver=D, args=["--space", "vc"]),
             dict(name="place-le2leaves-k3", driver=D, args=["--space", "place", "--maxleaves", 2, "--k", 3, "--cfgmask", "0x81", "--deadline", 60]),
